@@ -4,6 +4,7 @@ import (
 	"bytes"
 	"context"
 	"encoding/json"
+	"io"
 	"log/slog"
 	"net/http"
 	"net/http/httptest"
@@ -113,6 +114,18 @@ func execLogMw(args []string) string {
 		var seen string
 		inner := http.HandlerFunc(func(w http.ResponseWriter, r *http.Request) {
 			seen = r.Method + "," + r.Host + "," + r.RequestURI + "," + r.RemoteAddr + "," + r.Header.Get("X-Id")
+			// the rest of the request: the body, the trailer that arrives when the body has been read,
+			// and a context value stored under a key of a basic type by an earlier middleware
+			body, _ := io.ReadAll(r.Body)
+			if string(body) != "rq-"+r.Header.Get("X-Id") {
+				seen += ",BODY=" + string(body)
+			}
+			if r.Trailer.Get("X-T") != "t-"+r.Header.Get("X-Id") {
+				seen += ",TRAILER-LOST"
+			}
+			if v, _ := r.Context().Value(0).(string); v != "v-"+r.Header.Get("X-Id") {
+				seen += ",CONTEXT-VALUE-UNDER-KEY-0-LOST"
+			}
 			for _, op := range SplitList(ops, ".") {
 				if op == "w" {
 					_, _ = w.Write([]byte("body-" + r.Header.Get("X-Id")))
@@ -127,6 +140,9 @@ func execLogMw(args []string) string {
 		req.RemoteAddr = raddr
 		req.RequestURI = uri
 		req.Header.Set("X-Id", host+uri)
+		req = req.WithContext(context.WithValue(req.Context(), 0, "v-"+host+uri)) //nolint:staticcheck // a key of a basic type on purpose
+		req.Trailer = http.Header{"X-T": nil}
+		req.Body = &trailerBody{r: strings.NewReader("rq-" + host + uri), req: req, val: "t-" + host + uri}
 		rec := &callRecorder{hdr: http.Header{}}
 		recs = recs[:0]
 		mw.Wrap(inner).ServeHTTP(rec, req)
@@ -134,6 +150,24 @@ func execLogMw(args []string) string {
 	}
 	return strings.Join(out, " ;; ")
 }
+
+// trailerBody fills the announced trailer of the ORIGINAL request when the body has been read to the
+// end, as net/http's server does.
+type trailerBody struct {
+	r   *strings.Reader
+	req *http.Request
+	val string
+}
+
+func (b *trailerBody) Read(p []byte) (int, error) {
+	n, err := b.r.Read(p)
+	if err == io.EOF {
+		b.req.Trailer.Set("X-T", b.val)
+	}
+	return n, err
+}
+
+func (b *trailerBody) Close() error { return nil }
 
 // logmw2: args = code (0 = the handler sets none), number of LogMiddlewares in the chain.  Each of the
 // middlewares reports, in its own "finished" record, the status code the wrapped handler set.
